@@ -361,6 +361,111 @@ pub fn worker(tier: &str, k: usize, n: usize, ctx: &mut Ctx) {
   crate::clear_current_case();
 }
 
+/// Dense inner maps: one segment on (nearly) every character of a longer original text, each with
+/// its own original location, so that every lookup has a unique right answer; all outer lists of
+/// <= 3 segments pointing at every inner position (consecutive lookups land on different inner
+/// lines, at columns before / at / after the previous one).
+pub fn dense_worker(tier: &str, k: usize, n: usize, ctx: &mut Ctx) {
+  let thorough = tier == "thorough";
+  let mut st = Striper::new(k, n);
+  let gen = "abcd";
+  let (gpos, _) = model::positions(gen);
+  let originals: &[&str] = if thorough { &["abcd\nefgh", "ab\ncdef\ng"] } else { &["abcd\nefgh"] };
+  for original in originals {
+    let (opos, _) = model::positions(original);
+    // inner map variants
+    let mut inners: Vec<Vec<Seg>> = Vec::new();
+    // every char mapped to x0 at (line, col*2)
+    inners.push(opos.iter().map(|&(l, c)| Seg { gl: l, gc: c, orig: Some((0, l, c * 2, None)) }).collect());
+    // every other char unmapped
+    inners.push(opos.iter().enumerate().map(|(i, &(l, c))| Seg { gl: l, gc: c, orig: if i % 2 == 0 { Some((0, l, c, None)) } else { None } }).collect());
+    // second line denser than the first, names on some
+    inners.push(
+      opos
+        .iter()
+        .filter(|&&(l, c)| l > 1 || c >= 2)
+        .map(|&(l, c)| Seg { gl: l, gc: c, orig: Some((if l == 1 { 1 } else { 0 }, l + 1, c + 1, if c == 0 { Some(0) } else { None })) })
+        .collect(),
+    );
+    // first line denser than the second
+    inners.push(opos.iter().filter(|&&(l, c)| l == 1 || c == 1).map(|&(l, c)| Seg { gl: l, gc: c, orig: Some((0, 3 - l, c, None)) }).collect());
+    let okinds: Vec<Option<O4>> = opos.iter().filter(|p| original.chars().nth(0).is_some() && **p != (0, 0)).map(|&(l, c)| Some((0, l, c, None))).collect();
+    let okinds: Vec<Option<O4>> = okinds.into_iter().filter(|o| matches!(o, Some((_, l, c, _)) if line_of(original, *l).map(|ln| (*c as usize) < ln.len()).unwrap_or(false))).collect();
+    let outer_lists = trees::seg_lists(&gpos, &okinds, 3);
+    for osegs in &outer_lists {
+      if osegs.is_empty() || !st.mine() {
+        continue;
+      }
+      for isegs in &inners {
+        for remove in [false, true] {
+          let im = MapSpec::new(isegs.clone(), &["x0", "x1"], None, &["in0"]);
+          let mut im = im;
+          im.sources = vec!["y0".into(), "y1".into()];
+          let om = MapSpec::new(osegs.clone(), &[INNER_NAME], None, &["ab", "zz"]);
+          let t = Term::Sms(Box::new(SmsSpec {
+            value: gen.to_string(),
+            name: INNER_NAME.to_string(),
+            map: om,
+            original_source: Some(original.to_string()),
+            inner: Some(im),
+            remove,
+          }));
+          crate::set_current_case(&t);
+          ctx.states += 1;
+          ctx.sample(400_000, 4, || json!({"family": "dense inner map", "term": case_json(&t)}));
+          c09_case(ctx, &t);
+        }
+      }
+    }
+  }
+  crate::clear_current_case();
+}
+
+/// Every subset of the character positions of a 2 x 6 original text as the inner map's segment
+/// set (each segment with its own original location), against every ordered pair of outer
+/// segments pointing anywhere into it: all relative shapes of two consecutive inner lookups
+/// (same / different line, column before / at / after, dense / sparse lines).
+pub fn subset_worker(tier: &str, k: usize, n: usize, ctx: &mut Ctx) {
+  let original = "abcdef\nghijkl";
+  let gen = "uv";
+  let cols: u32 = 6;
+  let positions: Vec<(u32, u32)> = (1..=2u32).flat_map(|l| (0..cols).map(move |c| (l, c))).collect();
+  let step = if tier == "thorough" { 1 } else { 1 };
+  let mut st = Striper::new(k, n);
+  for mask in (0u32..(1 << positions.len())).step_by(step) {
+    if !st.mine() {
+      continue;
+    }
+    let isegs: Vec<Seg> = positions
+      .iter()
+      .enumerate()
+      .filter(|(i, _)| mask & (1 << i) != 0)
+      .map(|(_, &(l, c))| Seg { gl: l, gc: c, orig: Some((0, l + 2, c + 20, None)) })
+      .collect();
+    let mut im = MapSpec::new(isegs, &["y0"], None, &[]);
+    im.sources = vec!["y0".into()];
+    for &(l1, c1) in &positions {
+      for &(l2, c2) in &positions {
+        let osegs = vec![Seg { gl: 1, gc: 0, orig: Some((0, l1, c1, None)) }, Seg { gl: 1, gc: 1, orig: Some((0, l2, c2, None)) }];
+        let om = MapSpec::new(osegs, &[INNER_NAME], None, &[]);
+        let t = Term::Sms(Box::new(SmsSpec {
+          value: gen.to_string(),
+          name: INNER_NAME.to_string(),
+          map: om,
+          original_source: Some(original.to_string()),
+          inner: Some(im.clone()),
+          remove: (l1 + c2) % 2 == 0,
+        }));
+        crate::set_current_case(&t);
+        ctx.states += 1;
+        ctx.sample(2_000_000, 5, || json!({"family": "inner segment subsets", "term": case_json(&t)}));
+        c09_case(ctx, &t);
+      }
+    }
+  }
+  crate::clear_current_case();
+}
+
 pub fn bounds(tier: &str) -> Value {
   let thorough = tier == "thorough";
   json!({
@@ -373,6 +478,8 @@ pub fn bounds(tier: &str) -> Value {
     "outer_segment_kinds": "unmapped; into the inner source at every character position of the original text (with / without outer name); into another source (with / without name)",
     "inner_segment_kinds": "unmapped; x0:1:0; x0:1:1 named; x1:2:0; x0:2:0; inner sourcesContent present / absent",
     "options": "original_source given | taken from outer sourcesContent; remove_original_source in {T,F}; columns in {T,F}",
+    "subset_family": "original text 2 lines x 6 chars; inner map = EVERY subset (4096) of the 12 character positions, each segment with a distinct original location; outer map = every ordered pair (144) of positions pointed at by two consecutive generated characters",
+    "dense_family": "original text of 2 lines x 4 chars with 4 inner maps that put a distinct segment on (nearly) every character; all outer lists of <= 3 segments over 4 generated positions pointing at every inner character",
   })
 }
 
